@@ -21,6 +21,8 @@ func Rethrow(link *Defer) {
 		c.Printf(c.Str("fatal error\n"))
 		c.Exit(2)
 	} else {
+		// see z_default.go: the rethrowing frame must not stay the chain head
+		SetThreadDefer(link)
 		setjmp.Longjmp((*setjmp.JmpBuf)(link.Addr), 1)
 	}
 }
